@@ -109,7 +109,7 @@ inductive Attr (α : Type) where
   | plain (key : String) (v : Val α)
   | style (props : List (String × Val α))       -- `style="…"` after `parseStyleAttribute`
 
-/-- attribute selector: op 0 = presence, 1 = `=`, 2 = `~` -/
+/-- attribute selector: op 0 = presence, 1 = `=`, 2 = `~`, 3 = `|` -/
 structure AttrSel where
   op : Nat
   attr : String
@@ -151,9 +151,9 @@ structure SState (α : Type) where
 /-- element on `elemStack`, as far as selectors look at it -/
 structure Elem where
   tag : String
-  keys : List String
-  id : String
-  classes : List String
+  keys : List String                      -- names of the attributes present
+  vals : List (String × String)           -- attribute values as written
+  words : List (String × List String)     -- attribute values split on spaces (`strings.Split(v, " ")`)
 deriving Repr, Inhabited
 
 structure Layer (α : Type) where
@@ -251,42 +251,55 @@ def parseTransform (l : List (String × List α)) : Mat α × Bool :=
 
 /-! ## setAttribute (svg.go:727-798) -/
 
-def setAttribute (p : P α) (key : String) (v : Val α) : P α :=
+/-- what a declaration can change: the context's style and view, the importer's own state, the error flag -/
+structure Sty (α : Type) where
+  ctx : CState α
+  st : SState α
+  err : Bool
+
+def attrCore (diag : α) (s : Sty α) (key : String) (v : Val α) : Sty α :=
   match key, v with
-  | "fill", .color c => { p with ctx := { p.ctx with fill := c } }
-  | "fill", .kw "none" => { p with ctx := { p.ctx with fill := transparent } }
-  | "fill-rule", .kw "evenodd" => { p with ctx := { p.ctx with evenOdd := true } }
-  | "fill-rule", .kw "nonzero" => { p with ctx := { p.ctx with evenOdd := false } }
-  | "stroke", .color c => { p with ctx := { p.ctx with stroke := c } }
-  | "stroke", .kw "none" => { p with ctx := { p.ctx with stroke := transparent } }
+  | "fill", .color c => { s with ctx := { s.ctx with fill := c } }
+  | "fill", .kw "none" => { s with ctx := { s.ctx with fill := transparent } }
+  | "fill-rule", .kw "evenodd" => { s with ctx := { s.ctx with evenOdd := true } }
+  | "fill-rule", .kw "nonzero" => { s with ctx := { s.ctx with evenOdd := false } }
+  | "stroke", .color c => { s with ctx := { s.ctx with stroke := c } }
+  | "stroke", .kw "none" => { s with ctx := { s.ctx with stroke := transparent } }
   | "stroke-width", .dim n u =>
-    let (w, e) := parseDimension o n u p.diagonal
-    { p with err := p.err || e, ctx := { p.ctx with sw := w } }
+    let (w, e) := parseDimension o n u diag
+    { s with err := s.err || e, ctx := { s.ctx with sw := w } }
   | "stroke-dashoffset", .dim n u =>
-    let (w, e) := parseDimension o n u p.diagonal
-    { p with err := p.err || e, ctx := { p.ctx with dashOff := w } }
-  | "stroke-dasharray", .kw "none" => { p with ctx := { p.ctx with dashes := [] } }
-  | "stroke-dasharray", .nums l => { p with ctx := { p.ctx with dashes := l } }
-  | "stroke-linecap", .kw "butt" => { p with ctx := { p.ctx with cap := .butt } }
-  | "stroke-linecap", .kw "round" => { p with ctx := { p.ctx with cap := .round } }
-  | "stroke-linecap", .kw "square" => { p with ctx := { p.ctx with cap := .square } }
-  | "stroke-linejoin", .kw "arcs" => { p with ctx := { p.ctx with join := .arcs } }
-  | "stroke-linejoin", .kw "bevel" => { p with ctx := { p.ctx with join := .bevel } }
-  | "stroke-linejoin", .kw "miter" => { p with ctx := { p.ctx with join := .miter p.st.miter } }
-  | "stroke-linejoin", .kw "miter-clip" => { p with ctx := { p.ctx with join := .miterClip p.st.miter } }
-  | "stroke-linejoin", .kw "round" => { p with ctx := { p.ctx with join := .round } }
+    let (w, e) := parseDimension o n u diag
+    { s with err := s.err || e, ctx := { s.ctx with dashOff := w } }
+  | "stroke-dasharray", .kw "none" => { s with ctx := { s.ctx with dashes := [] } }
+  | "stroke-dasharray", .nums l => { s with ctx := { s.ctx with dashes := l } }
+  | "stroke-linecap", .kw "butt" => { s with ctx := { s.ctx with cap := .butt } }
+  | "stroke-linecap", .kw "round" => { s with ctx := { s.ctx with cap := .round } }
+  | "stroke-linecap", .kw "square" => { s with ctx := { s.ctx with cap := .square } }
+  | "stroke-linejoin", .kw "arcs" => { s with ctx := { s.ctx with join := .arcs } }
+  | "stroke-linejoin", .kw "bevel" => { s with ctx := { s.ctx with join := .bevel } }
+  | "stroke-linejoin", .kw "miter" => { s with ctx := { s.ctx with join := .miter s.st.miter } }
+  | "stroke-linejoin", .kw "miter-clip" => { s with ctx := { s.ctx with join := .miterClip s.st.miter } }
+  | "stroke-linejoin", .kw "round" => { s with ctx := { s.ctx with join := .round } }
   | "stroke-miterlimit", .dim n u =>
     -- the limit also reaches a miter joiner that is in use (both gap joiners are `MiterJoiner`)
-    let (w, e) := parseDimension o n u p.diagonal
-    let j := match p.ctx.join with
+    let (w, e) := parseDimension o n u diag
+    let j := match s.ctx.join with
       | .miter _ => .miter w
       | .miterClip _ => .miterClip w
       | j => j
-    { p with err := p.err || e, st := { p.st with miter := w }, ctx := { p.ctx with join := j } }
+    { s with err := s.err || e, st := { s.st with miter := w }, ctx := { s.ctx with join := j } }
   | "transform", .xform l =>
     let (m, e) := parseTransform o l
-    { p with err := p.err || e, ctx := { p.ctx with view := o.mmul p.ctx.view m } }
-  | _, _ => p
+    { s with err := s.err || e, ctx := { s.ctx with view := o.mmul s.ctx.view m } }
+  | _, _ => s
+
+
+def sty (p : P α) : Sty α := ⟨p.ctx, p.st, p.err⟩
+def withSty (p : P α) (s : Sty α) : P α := { p with ctx := s.ctx, st := s.st, err := s.err }
+
+def setAttribute (p : P α) (key : String) (v : Val α) : P α :=
+  withSty p (attrCore o p.diagonal (sty p) key v)
 
 def setProps (p : P α) (props : List (String × Val α)) : P α :=
   props.foldl (fun p kv => setAttribute o p kv.1 kv.2) p
@@ -296,8 +309,10 @@ def setProps (p : P α) (props : List (String × Val α)) : P α :=
 def AttrSel.applies (s : AttrSel) (e : Elem) : Bool :=
   match s.op with
   | 0 => e.keys.contains s.attr
-  | 1 => s.attr == "id" && e.id == s.val
-  | 2 => s.attr == "class" && s.val != "" && e.classes.contains s.val
+  | 1 => (e.vals.lookup s.attr).getD "" == s.val
+  | 2 => ((e.words.lookup s.attr).getD []).any (fun w => w != "" && w == s.val)
+  | 3 => let v := (e.vals.lookup s.attr).getD ""
+         v == s.val || v.startsWith (s.val ++ "-")
   | _ => false
 
 def SelNode.applies (s : SelNode) (e : Elem) : Bool :=
@@ -562,8 +577,10 @@ def drawShape (p : P α) (tag : String) (attrs : List (Attr α)) : P α :=
 def elemOf (tag : String) (attrs : List (Attr α)) : Elem :=
   { tag := tag,
     keys := attrs.map (fun a => match a with | .plain k _ => k | .style _ => "style"),
-    id := match lookup attrs "id" with | some (.str s) => s | _ => "",
-    classes := match lookup attrs "class" with | some (.words l) => l | _ => [] }
+    vals := (match lookup attrs "id" with | some (.str s) => [("id", s)] | _ => []) ++
+            (match lookup attrs "class" with | some (.words l) => [("class", " ".intercalate l)] | _ => []),
+    words := (match lookup attrs "id" with | some (.str s) => [("id", [s])] | _ => []) ++
+             (match lookup attrs "class" with | some (.words l) => [("class", l)] | _ => []) }
 
 def push (p : P α) (tag : String) (attrs : List (Attr α)) : P α :=
   { p with ctxStack := p.ctx :: p.ctxStack, stStack := p.st :: p.stStack, elems := elemOf tag attrs :: p.elems }
